@@ -398,7 +398,37 @@ def c05(run):
                            "gated replays add happens-before edges and are not used for the race clause"])
 
 
-PROPS = {"C05": c05, "C06": c06, "C11": c11, "C04": c04, "C03": c03, "C14": c14, "C15": c15, "C13": c13, "C01": c01, "C02": c02, "C07": c07, "C08": c08, "C09": c09, "C10": c10, "C12": c12}
+# ============================================================== static
+def st_cfg(maxsegs, dev=(), emit=True):
+    return ("SPECIFICATION Spec\nCONSTANTS\n MaxSegs = %d\n EmitCases = %s\n Dev = %s\n" % (maxsegs, "TRUE" if emit else "FALSE", vlib.tla_set(dev)) +
+            "INVARIANT Conforms\nINVARIANT NeverOutside\nCONSTRAINT EmitCase\nCHECK_DEADLOCK FALSE\n")
+
+
+def c16(run):
+    quick = run.tier == "quick"
+    run.build_harness()
+    env = {"VERIF_SEED": str(run.seed)}
+    run.tlc("Static", st_cfg(3, dev=["NOBOUNDARY"], emit=False), name="ST_neg", expect_violation="Conforms")
+    r = run.model_check("Static", st_cfg(4 if quick else 5), name="ST_gen", want_cases=True, heap="24g")
+    cf = vlib.subsample(r["cases_file"], 20000 if quick else 500000, run.seed, run)
+    run.conformance("st_paths", "static", cf, "StaticTrace", TRACE_CFG % "", env=env, chunk_events=40000)
+    gen = os.path.join(run.work, "st_rand.jsonl")
+    with open(gen, "w") as fo:
+        p = run.hrun(["static", "gen", run.seed, 4000 if quick else 200000], stdout=fo)
+    if p.returncode != 0:
+        raise Infra("static gen failed: " + p.stderr[-2000:])
+    run.conformance("st_hostile", "static", gen, "StaticTrace", TRACE_CFG % "", env=env, chunk_events=40000)
+    return run.finish(
+        rule="TLC enumerates every request path up to MaxSegs segments over {f, d, e, g, index, pfx, pfxx, secret, .., ., empty} x "
+             "{GET, HEAD, POST} x {no prefix, prefix pfx} and checks the code-shaped decision procedure (string prefix + boundary test, "
+             "trimming, Clean inside the root, redirect, index) against the declarative outcome, and that only files inside the root are "
+             "ever sent; every path is requested from the real Static middleware over a scratch tree with a file outside the root (prefix "
+             "spelled 4 ways, ETag/Expires/CacheControl toggled by seed) and kind / content / Location / written / next-handler-ran are "
+             "validated by TLC; hostile byte segments (NUL, back-slashes, encoded dots, long names) randomly. Non-trivial = >= 2 segments.",
+        extra_assumptions=["the scratch tree contains no symlinks; file-system case folding is out of scope", "content is identified by body / Content-Length"])
+
+
+PROPS = {"C16": c16, "C05": c05, "C06": c06, "C11": c11, "C04": c04, "C03": c03, "C14": c14, "C15": c15, "C13": c13, "C01": c01, "C02": c02, "C07": c07, "C08": c08, "C09": c09, "C10": c10, "C12": c12}
 
 
 def main():
